@@ -26,7 +26,8 @@
 (* Generators: Spec (BFS, every pool invocation at every state up to       *)
 (* Depth), SimSpec (class-weighted random walks), TwiceSpec (two writing   *)
 (* commands into the same place with different values: replace, truncate), *)
-(* RoundSpec (new --out, then commands on that document).                  *)
+(* RoundSpec (new --out, then commands on that document), AgainSpec (read, *)
+(* run something with other flags, read again).                            *)
 (***************************************************************************)
 EXTENDS CliApp
 
@@ -101,6 +102,8 @@ ProgEmpty1 == {WithNames(BaseEmpty, 1)}
 ProgNoProd1 == {WithNames(BaseNoProd, 1)}
 ProgClash == {WithNames(BaseClashPair, 1), WithNames(BaseClashCmd, 1)}
 ProgsBfs == ProgSmall1 \cup ProgSmall3 \cup ProgMixed3 \cup ProgTwo2 \cup ProgTwo4 \cup ProgUneval1 \cup ProgEmpty1 \cup ProgNoProd1 \cup ProgClash
+ProgsBfsA == ProgSmall1 \cup ProgMixed3 \cup ProgUneval1 \cup ProgEmpty1 \cup ProgClash
+ProgsBfsB == ProgSmall3 \cup ProgTwo2 \cup ProgTwo4 \cup ProgNoProd1
 ProgsTwice == ProgSmall1 \cup ProgTwo4
 ProgsTwiceMore == ProgSmall3 \cup ProgTwo2 \cup ProgMixed3
 
@@ -226,6 +229,18 @@ RoundNext ==
     \/ Len(hist) = 0 /\ \E i \in {j \in NewPool : Len(j.toks) = 3} : Do(i)
     \/ Len(hist) \in 1..2 /\ \E i \in DocPool : (Len(hist) = 2 => i.cmd \in {"", "help"} /\ hist[2].cmd \notin {"", "help"}) /\ Do(i)
 RoundSpec == Init /\ [][RoundNext]_vars
+
+\* a read-only command, a command with other parameter flags in between, the same read-only command again (all in one
+\* process): what the second run prints must not depend on what ran before it
+Readers == {Inv(m, c, ts) : m \in Modes, c \in {"outline", "mermaid", "swagger"}, ts \in {<<>>} \cup {<<t>> : t \in ParamToksStd}}
+           \cup {Inv(m, "help", <<>>) : m \in Modes}
+Disturbers == {Inv(m, "generate", <<FolderTok(1, Std), t>>) : m \in Modes, t \in ParamToksStd}
+              \cup {Inv(m, c, <<t>>) : m \in Modes, c \in {"zip", "outline"}, t \in ParamToksStd}
+AgainNext ==
+    \/ Len(hist) = 0 /\ \E i \in Readers : Do(i)
+    \/ Len(hist) = 1 /\ \E i \in Disturbers : i.mode = hist[1].mode /\ Do(i)
+    \/ Len(hist) = 2 /\ Do(hist[1])
+AgainSpec == Init /\ [][AgainNext]_vars
 
 (* ---------------- design-level checks ----------------------------------------------- *)
 Classes == {"ok", "reject", "helpflag", "uneval", "clash"}
